@@ -103,7 +103,7 @@ impl Check for Upgrade {
                 }
             }
             if e.as_contract(&id, || can_complete_migration(e)) != flag || c.migrations() != count { return Err(violation("migrate.once_per_upgrade", "state", i, format!("flag/count differ after {s:?}"))); }
-            st.state(&(flag, count.min(5)));
+            st.state(&(flag, count.min(5), std::mem::discriminant(s)));
         }
         Ok(())
     }
